@@ -22,6 +22,7 @@
   would consume nothing), the quote states only after the opening quote.
 -/
 import JetVerif.Lemmas.LexNoCrash
+import JetVerif.Lemmas.ParseTermProd
 import JetVerif.Props.C02P
 
 namespace JetVerif.Props.C02L
@@ -134,5 +135,52 @@ theorem parseSource_error_names_a_source_line (cfg : Parse.Cfg) (l r lc rc name 
     | unsupported w' => rw [hp] at he; simp at he
   | crash m e => rw [hl] at he; simp at he
   | outOfFuel e => rw [hl] at he; simp at he
+
+/-! ### the parser always ends -/
+
+/-- **The parser never runs out of the fuel `Set.parse`'s model gives it** (40 units per item plus
+    160): for every item sequence - well-formed or not, ending in `eof`, in an error item or in nothing
+    at all - every literal table and every loader.  The measure is the number of items not yet consumed
+    (error items handed out by the closed channel weigh nothing); every production either consumes or
+    calls a production of lower rank, and every loop consumes in every round
+    (Lemmas/ParseTerm.lean, Lemmas/ParseTermProd.lean). -/
+theorem parser_terminates (cfg : Parse.Cfg) (name input : Bytes) (toks : List Parse.Item) :
+    Parse.parseItems cfg name input toks ≠ .fuel := by
+  intro hc
+  unfold Parse.parseItems at hc
+  have h := Parse.parseTemplate_T cfg (Parse.fuelFor toks) toks.length (by unfold Parse.fuelFor; omega)
+    { input := input, name := name, toks := toks } (Parse.initial_mu name input toks)
+  cases hp : Parse.parseTemplate cfg (Parse.fuelFor toks) { input := input, name := name, toks := toks } with
+  | ok r s => rw [hp] at hc; cases r; simp at hc
+  | err l m => rw [hp] at hc; simp at hc
+  | crash w => rw [hp] at hc; simp at hc
+  | fuel => rw [hp] at h; exact h
+  | unsupported w => rw [hp] at hc; simp at hc
+
+/-- lexer and parser together never run out of fuel: the model's fuel decides no outcome -/
+theorem parseSource_terminates (cfg : Parse.Cfg) (l r lc rc name input : Bytes) :
+    Parse.parseSource cfg (mkDelims l r lc rc) name input ≠ .fuel := by
+  intro hc
+  unfold Parse.parseSource at hc
+  obtain ⟨evs, hl⟩ := lexer_terminates l r lc rc input
+  rw [hl] at hc
+  exact parser_terminates cfg name input _ hc
+
+/-- **Parsing is total**: for every source, every delimiter configuration, every loader and every
+    literal table the model of `Set.parse` yields a template or a located error (or, where the
+    literal table handed to the model does not cover a literal of the source, says so) - it neither
+    crashes nor fails to end. -/
+theorem parseSource_total (cfg : Parse.Cfg) (l r lc rc name input : Bytes) :
+    (∃ t, Parse.parseSource cfg (mkDelims l r lc rc) name input = .ok t) ∨
+    (∃ line msg, Parse.parseSource cfg (mkDelims l r lc rc) name input = .err line msg ∧
+      1 ≤ line ∧ line ≤ 1 + Parse.countNl input) ∨
+    (∃ w, Parse.parseSource cfg (mkDelims l r lc rc) name input = .unsupported w) := by
+  cases h : Parse.parseSource cfg (mkDelims l r lc rc) name input with
+  | ok t => exact Or.inl ⟨t, rfl⟩
+  | err line msg =>
+    exact Or.inr (Or.inl ⟨line, msg, rfl, parseSource_error_names_a_source_line cfg l r lc rc name input line msg h⟩)
+  | crash w => exact absurd h (parseSource_never_crashes cfg l r lc rc name input w)
+  | fuel => exact absurd h (parseSource_terminates cfg l r lc rc name input)
+  | unsupported w => exact Or.inr (Or.inr ⟨w, rfl⟩)
 
 end JetVerif.Props.C02L
